@@ -100,14 +100,38 @@ fn leaf_kinds(s: &Shape, out: &mut Vec<String>) {
 }
 
 pub fn check_case(shape: &Shape, val: &Val, r: &mut Report) {
+    check_case_tagged(shape, val, r, None)
+}
+
+fn clip(mut s: String) -> String {
+    if s.len() > 700 {
+        let mut cut = 700;
+        while !s.is_char_boundary(cut) {
+            cut -= 1;
+        }
+        s.truncate(cut);
+        s.push_str("...");
+    }
+    s
+}
+
+/// `tag`: for generated large values, the recipe (kind, n) that rebuilds the value on replay
+pub fn check_case_tagged(shape: &Shape, val: &Val, r: &mut Report, tag: Option<&serde_json::Value>) {
     r.states += 1;
     let typed = Typed(shape, val);
     let st = shape.text();
-    let case = |path: &str| json!({"shape": st, "value": format!("{:?}", val), "path": path});
+    let case = |path: &str| match tag {
+        Some(t) => json!({"shape": st, "size_case": t, "path": path}),
+        None => json!({"shape": st, "value": format!("{:?}", val), "path": path}),
+    };
     let verdict_bearing = shape.is_conjure();
     let mut fail = |r: &mut Report, fmt: &str, oracle: &str, path: &str, msg: String| {
         if verdict_bearing {
-            r.violation(format!("C01|{}|{}|{}|{}", fmt, oracle, path, st), msg, case(path));
+            let sig = match tag {
+                Some(t) => format!("C01|{}|{}|{}|{}|size:{}", fmt, oracle, path, st, t["class"].as_str().unwrap_or("")),
+                None => format!("C01|{}|{}|{}|{}", fmt, oracle, path, st),
+            };
+            r.violation(sig, clip(msg), case(path));
         } else {
             r.outcome("informational-mismatch");
         }
@@ -212,6 +236,71 @@ pub fn check_case(shape: &Shape, val: &Val, r: &mut Report) {
     }
 }
 
+pub const SIZE_KINDS: [&str; 10] = ["binary", "binary-key", "list<binary>", "optional<binary>", "struct{binary}", "string", "string-key", "list<i32>*n", "map<i32,bool>*n", "list<string>*n"];
+
+/// lengths around every power of two and multiple-of-three block boundary
+pub fn size_points(thorough: bool) -> Vec<usize> {
+    let mut v: Vec<usize> = (0..=70).collect();
+    if thorough {
+        v.extend(71..=4200);
+        for c in [8192usize, 12288, 16384, 32768, 49152, 65536, 98304, 131072, 196608, 262144, 1 << 20] {
+            v.extend(c - 3..=c + 3);
+        }
+    } else {
+        for c in [128usize, 192, 256, 384, 512, 768, 1024, 1536, 2048, 3072, 4096, 6144, 8192, 16384, 65536] {
+            v.extend(c - 2..=c + 2);
+        }
+    }
+    v.sort();
+    v.dedup();
+    v
+}
+
+fn size_class(n: usize) -> &'static str {
+    match n {
+        0..=70 => "n<=70",
+        71..=1023 => "n<1024",
+        1024..=4200 => "n<=4200",
+        _ => "n>4200",
+    }
+}
+
+fn pattern_bytes(n: usize) -> Vec<u8> {
+    (0..n).map(|i| ((i * 7 + 3) % 256) as u8).collect()
+}
+
+fn pattern_string(n: usize) -> String {
+    // quotes, backslashes, controls and multi-byte characters at rotating offsets
+    const CS: [char; 11] = ['a', '"', 'b', '\\', 'c', '\n', '\u{e9}', 'd', '\u{10000}', '\u{7f}', '\u{0}'];
+    (0..n).map(|i| CS[i % CS.len()]).collect()
+}
+
+pub fn sized_case(kind: &str, n: usize) -> Option<(Shape, Val)> {
+    let bin = Shape::Leaf(Leaf::Bytes);
+    let i32s = Shape::Leaf(Leaf::I32);
+    let string = Shape::Leaf(Leaf::Str);
+    Some(match kind {
+        "binary" => (bin, Val::Bytes(pattern_bytes(n))),
+        "binary-key" => (Shape::Map(Leaf::Bytes, Box::new(i32s)), Val::Map(vec![(Val::Bytes(pattern_bytes(n)), Val::I32(1))])),
+        "list<binary>" => (Shape::Seq(Box::new(bin)), Val::Seq(vec![Val::Bytes(pattern_bytes(n)), Val::Bytes(vec![1]), Val::Bytes(pattern_bytes(n / 2))])),
+        "optional<binary>" => (Shape::Option(Box::new(bin)), Val::Some(Box::new(Val::Bytes(pattern_bytes(n))))),
+        "struct{binary}" => {
+            let sh = crate::space::shapes_up_to(1, &[Leaf::Bytes], &[Leaf::Str]).into_iter().find(|s| matches!(s, Shape::Struct(..)))?;
+            let mut v = crate::space::default_val(&sh);
+            if let Val::Struct(fs) = &mut v {
+                fs[0] = Val::Bytes(pattern_bytes(n));
+            }
+            (sh, v)
+        }
+        "string" => (string, Val::Str(pattern_string(n))),
+        "string-key" => (Shape::Map(Leaf::Str, Box::new(i32s)), Val::Map(vec![(Val::Str(pattern_string(n)), Val::I32(1))])),
+        "list<i32>*n" if n <= 70_000 => (Shape::Seq(Box::new(i32s)), Val::Seq((0..n).map(|i| Val::I32(i as i32 * 31 - 1000)).collect())),
+        "map<i32,bool>*n" if n <= 70_000 => (Shape::Map(Leaf::I32, Box::new(Shape::Leaf(Leaf::Bool))), Val::Map((0..n).map(|i| (Val::I32(i as i32 - 5), Val::Bool(i % 3 == 0))).collect())),
+        "list<string>*n" if n <= 70_000 => (Shape::Seq(Box::new(string)), Val::Seq((0..n).map(|i| Val::Str(pattern_string(i % 5))).collect())),
+        _ => return None,
+    })
+}
+
 pub fn shape_space(args: &Args) -> (Vec<Shape>, usize, serde_json::Value) {
     let keys: Vec<Leaf> = CONJURE_LEAVES.to_vec();
     let mut shapes = vec![];
@@ -263,6 +352,29 @@ pub fn run(args: &Args) -> Report {
         });
     report.merge(total);
 
+    // the size dimension: long binaries / strings (block and buffer boundaries), many elements
+    let sizes = size_points(args.tier.is_thorough());
+    let kinds: Vec<&'static str> = SIZE_KINDS.to_vec();
+    let jobs: Vec<(&'static str, usize)> = kinds.iter().flat_map(|k| sizes.iter().map(move |n| (*k, *n))).collect();
+    let sized = jobs
+        .par_iter()
+        .fold(
+            || Report::new("C01", "model_checking"),
+            |mut r, (kind, n)| {
+                if let Some((shape, val)) = sized_case(kind, *n) {
+                    let tag = json!({"kind": kind, "n": n, "class": size_class(*n)});
+                    check_case_tagged(&shape, &val, &mut r, Some(&tag));
+                }
+                r
+            },
+        )
+        .reduce(|| Report::new("C01", "model_checking"), |mut a, b| {
+            a.merge(b);
+            a
+        });
+    report.extra.insert("size_cases".into(), json!(sized.states));
+    report.merge(sized);
+
     // informational: serde shapes outside the Conjure model (never verdict-bearing)
     let mut info = Report::new("C01", "model_checking");
     for l in [Leaf::F32, Leaf::I128, Leaf::U128, Leaf::Char, Leaf::U64] {
@@ -298,6 +410,13 @@ pub fn run(args: &Args) -> Report {
 fn replay(path: &str, mut report: Report) -> Report {
     // the case is identified by its shape text; re-run every value of that shape
     let v = vcommon::load_replay(path);
+    if let Some(t) = v["case"].get("size_case") {
+        if let Some((shape, val)) = sized_case(t["kind"].as_str().unwrap_or(""), t["n"].as_u64().unwrap_or(0) as usize) {
+            check_case_tagged(&shape, &val, &mut report, Some(t));
+        }
+        report.exhaustive = false;
+        return report;
+    }
     let want = v["case"]["shape"].as_str().unwrap_or("").to_string();
     let args = Args { property: "C01".into(), tier: vcommon::Tier::Thorough, out: String::new(), replay: None, extra: vec![] };
     let (shapes, full_depth, _) = shape_space(&args);
